@@ -26,7 +26,7 @@ func VInv(m *Map[int, int]) {
 func VHMapStep() {
 	keys, vals := maps.VPairs(true)
 	m := VGMapOf(keys, vals)
-	maps.VMapStep(m, keys, vals, maps.VKind{Bidi: true, GetKey: m.GetKey, Inv: func() { VInv(m) }})
+	maps.VMapStep(m, keys, vals, maps.VKind{Name: "HashBidiMap", Bidi: true, GetKey: m.GetKey, Inv: func() { VInv(m) }})
 }
 
 // VHSnap: returned slices are snapshots, argument slices are copied, GetSortedValues leaves the container alone (C16).
